@@ -72,6 +72,49 @@ def judge(ck, jobs, res, label):
       ck.traces_ok(1)
 
 
+def probe_leg(ck, n):
+  """V: coefficients of the linear regime measured on the real Tearfree optimizer, validated by TFTerms_Trace."""
+  import numpy as np
+  rs = np.random.RandomState(ck.seed + 1502)
+  pick = lambda xs: xs[rs.randint(len(xs))]
+  jobs = []
+  for i in range(n):
+    cfg = {"graft": "SGD", "start": pick([0, 2]), "skipped": bool(rs.randint(2)), "ema": bool(rs.randint(2)),
+           "nest": bool(rs.randint(2)), "md": pick([[0, 0], [1, 2], [1, 1], [3, 2]]),
+           "wd": pick([[0, 0], [1, 3], [1, 2], [3, 3]]), "wdafter": bool(rs.randint(2)),
+           "lr": pick([[1, 2], [1, 1], [1, 0], [3, 2]]), "lrs": pick(["const", "lin8"]), "SF": pick([1, 2]),
+           "PF": pick([1, 2, 3]), "b2": pick([[1, 0], [1, 1]]), "gd": [1, 0]}
+    jobs.append({"cfg": cfg, "T": 6, "seed": ck.seed * 1000 + i, "so": pick(["shampoo", "sketchy"])})
+  res = core.run_workers("harness.workers.tf_probe", jobs, work=ck.work)
+  traces = []
+  for j, r in zip(jobs, res):
+    if r["error"]:
+      ck.violation(f"tf|probe|{'internal_error' if r['kind'] == 'internal' else 'rejected'}",
+                   f"coefficient probe raised {r['error']} cfg={j['cfg']}", {"job": j, "tb": r["tb"]})
+      continue
+    if not r["structure_ok"]:
+      ck.violation("tf|probe|update_not_supported_on_the_probed_entry",
+                   f"unit-impulse response is not a multiple of the impulse; cfg={j['cfg']}", {"job": j})
+      continue
+    traces.append(r["trace"])
+  verdicts = ck.validate("TFTerms_Trace", "TFTerms_Trace", traces)
+  for t, v in zip(traces, verdicts):
+    ck.count(1, key=["probe", t["cfg"]])
+    if v["accepted"]:
+      ck.traces_ok(1)
+    else:
+      ck.violation(f"tf|probe|{v['verdict']}",
+                   f"coefficient probe: trace rejected at step {v['l'] - 1} ({v['verdict']}); cfg={t['cfg']}",
+                   {"trace": t, "verdict": v})
+  ck.sample({"probe_trace": {"cfg": traces[0]["cfg"], "coef_row_T": traces[0]["coef"][-1], "cx": traces[0]["cx"]}})
+  bad = copy.deepcopy(traces[0])
+  m, e = bad["coef"][-1][-1]
+  bad["coef"][-1][-1] = [m * 3 if m else 1, e]
+  sub = core.Check(ck.pid, ck.level, ck.tier, ck.seed, parent=ck)
+  ck.selftest("V: a measured coefficient altered by a factor 3 is rejected",
+              not sub.validate("TFTerms_Trace", "TFTerms_Trace", [bad])[0]["accepted"])
+
+
 def run(ck):
   quick = ck.quick
   ck.mc("TFTerms_MC", "TFTerms_MC", required_actions=["Step"])
@@ -93,6 +136,9 @@ def run(ck):
   sr = execute(sub, sj)
   ck.selftest("R: wrong momentum coefficient is flagged", bool(sr[0]["mismatches"]))
   ck.selftest("R: wrong statistics weight in the root is flagged", bool(sr[1]["mismatches"]))
+  probe_leg(ck, 48 if quick else 600)
+  ck.assume("coefficient probing: with the SGD graft and a start step never reached (or a masked parameter) the "
+            "chain is exactly linear; unit impulses give dyadic coefficients that are exact in float32")
   ck.assume("Sketchy is compared on histories whose per-axis Gram rank exceeds the sketch rank (or rank = dim): "
             "at rank exactly k the exact-zero tests `tail > 0` / `deflated > 0` are decided by float32 noise")
   ck.assume("AdaFactor's graft step is taken from optax (a dependency, not code under test)")
